@@ -24,7 +24,7 @@ RULE = (
     "evaluations = processes; non-trivial = process with >= 2 likelihood calls; distinct_nontrivial counts distinct "
     "(sampler, namespace, dtype, preconditioning, pool, resumed, phases seen) tuples."
 )
-ASSUMPTIONS = ["stub kernels/proposal; blackjax not run"]
+ASSUMPTIONS = ["stub kernels/proposal; BlackJAXSMC through a jax-written random-walk stand-in for blackjax (nuts / hmc branches not run); its evaluation counter is not judged (a traced call has no definite number of points)"]
 COMPONENTS = runs.COMPONENTS
 BUDGET_S = {"quick": 80, "thorough": 1500}
 
@@ -35,17 +35,33 @@ def gen_cases(seed, tier):
     for i in range(n):
         ss = stream_seeds(seed, ID, i)
         out.append({"run_index": i, "scenario_seed": ss["scenario"], "fault_seed": ss["faults"], "tier": tier})
+    from . import c05_blackjax
+
+    # BlackJAXSMC's own call sites (its copy of the kernel target, traced under vmap / scan, and the eager re-evaluation after
+    # every kernel): the jax twin of the model checks the attached prior at trace time and, through jax.debug.callback, by value
+    bj = c05_blackjax.cases(ID, seed, tier, n_quick=6, n_thorough=60)
+    step = max(1, len(out) // (len(bj) + 1))
+    for k, c in enumerate(bj):
+        out.insert(min(len(out), (k + 1) * step + k), c)
     return out
 
 
 def scenario_of(case):
     if "scenario" in case:
         return case["scenario"]
+    if case.get("kind") == "blackjax":
+        from . import c05_blackjax
+
+        return c05_blackjax.scenario(case)
     return runs.draw_any(case["scenario_seed"], case["tier"])
 
 
 def run_case(case, workdir):
     scn = scenario_of(case)
+    if case.get("kind") == "blackjax":
+        from . import c05_blackjax
+
+        return c05_blackjax.judge(case, workdir, scn, want=("c17",))
     rng = rng_from(case["fault_seed"])
     use_pool = case.get("pool", bool(rng.integers(3) == 0))
     par_prior = bool(rng.integers(2))
@@ -94,6 +110,8 @@ def run_case(case, workdir):
 
 
 def shrink_candidates(case):
+    if case.get("kind") == "blackjax":
+        return []
     scn = scenario_of(case)
     base = {k: v for k, v in case.items() if k != "scenario"}
     return [{**base, "scenario": s, "crash": False} for s in shrink_scenario_candidates(scn)] + [{**base, "scenario": scn, "crash": False, "pool": False}]
